@@ -579,8 +579,19 @@ func GenExact(r *simrt.RNG, cfg GenCfg) World {
 			w.Parties = append(w.Parties, c)
 			w.Args = append(w.Args, ArgSpec{Kind: ArgConvFunc, Party: len(w.Parties) - 1})
 			callArgs = append(callArgs, len(w.Args)-1)
-		case 5: // a random converter
-			c := g.party(1, 1, r.Bool())
+		case 5: // a random converter (sometimes with two inputs)
+			nin := 1
+			if cfg.MultiIn && r.Bool() {
+				nin = 2
+			}
+			c := g.party(nin, 1, r.Bool())
+			if nin == 2 && len(c.Out) == 1 && r.Bool() {
+				// ... producing the parameter itself from values in play
+				c.Out[0].Label = Label{Type: p.Type}
+				if c.OutForm != FormPositional {
+					c.Out[0].Label = p
+				}
+			}
 			if len(c.Out) == 0 {
 				continue
 			}
